@@ -388,6 +388,30 @@ def run_insitu(ctx, spec):
             R.t2incons.t2incon(f)
         report(ctx, mon, case)
         ctx.case(('insitu', case['file']), nontrivial=(mon.nf + mon.ni - n0) > 0, sample=True)
+    # the same numbers when the file simply ends after its last record (no final newline, as files cut or
+    # produced by other tools do): the last field of the last line must read as it does in the full file
+    for f in incons:
+        case = {'file': os.path.relpath(f, REPO), 'kind': 'incon-without-final-newline'}
+        with open(f, 'rb') as fh:
+            lines = fh.read().decode('latin-1').split('\n')
+        end = next((i for i, l in enumerate(lines) if i > 0 and (not l.strip() or l.startswith('+++'))), len(lines))
+        if end < 3:
+            continue
+        cut = os.path.join(ctx.tmp, 'c16_cut_' + os.path.basename(f))
+        with open(cut, 'wb') as fh:
+            fh.write('\n'.join(lines[:end]).encode('latin-1'))           # no newline after the last record
+        with ctx.guard(case, where='insitu-incon-cut'):
+            a = R.t2incons.t2incon(f)
+            b = R.t2incons.t2incon(cut)
+            ctx.count('files_without_final_newline')
+            va = [(x.block, [float(v) for v in x.variable]) for x in a]
+            vb = [(x.block, [float(v) for v in x.variable]) for x in b]
+            if va != vb:
+                k = next((i for i, (p, q) in enumerate(zip(va, vb)) if p != q), min(len(va), len(vb)))
+                ctx.violation('wrong-value:file-without-final-newline', '%s cut after its last record reads %r where the full file reads %r' % (
+                    case['file'], vb[k] if k < len(vb) else None, va[k] if k < len(va) else None), case)
+        os.remove(cut)
+        report(ctx, mon, case)
     for f in listings:
         case = {'file': os.path.relpath(f, REPO), 'kind': 'listing'}
         n0 = mon.nf + mon.ni
